@@ -595,6 +595,12 @@ where
             if let Some((&j, w)) = self.iter.next() {
                 let index = self.index;
                 self.index += 1;
+                // An undirected edge is stored in the rows of both endpoints; yield it
+                // only from the row of its smaller endpoint so that every edge is
+                // reported once (consistent with `edge_count`).
+                if !Ty::is_directed() && j < self.source_index {
+                    continue;
+                }
                 return Some(EdgeReference {
                     index,
                     source: self.source_index,
